@@ -1594,6 +1594,9 @@ def _calls_named(fnode, *names):
 
 ROLE_FINDERS = {
   # canonical name -> predicate over a FunctionDef of module `engine` (role, in one sentence)
+  "_maybe_update_trigger_dependencies":   # tests and resets the "trigger columns changed" flag
+    lambda f: "_have_trigger_columns_changed" in _attr_loads(f) and
+    "_have_trigger_columns_changed" in _attr_stores(f) and _calls_named(f, "clear_dependencies"),
   "_make_sorted_work_items":     # builds the WorkItems of a sorted sequence of nodes
     lambda f: _calls_named(f, "WorkItem") and _calls_named(f, "sorted", "sort") and
     not _calls_named(f, "pop"),
